@@ -494,6 +494,15 @@ pub fn set_logging(trace: bool) {
 const MAX_REPLAYS_PER_SIG: usize = 3;
 const MAX_SAMPLES: usize = 12;
 
+/// `./check` runs every property twice: first with the binary built with overflow checks and
+/// debug assertions (what `cargo test` and dev builds give a user), then with a binary built
+/// with the defaults of `--release` (no overflow checks, no debug assertions), quick bounds.
+/// The second process has MC_PROFILE=release-defaults and merges its summary into the evidence
+/// file the first one wrote.
+pub fn secondary_profile() -> bool {
+    std::env::var("MC_PROFILE").map(|v| v == "release-defaults").unwrap_or(false)
+}
+
 impl Ctx {
     pub fn new(prop: &str, tier: Tier) -> Ctx {
         let verif_root = std::env::var("VERIF_ROOT").unwrap_or_else(|_| "/verif".into());
@@ -502,8 +511,13 @@ impl Ctx {
         // stale replay artefacts of this property/tier are removed so that every file present
         // belongs to the current run
         if let Ok(rd) = std::fs::read_dir(format!("{}/replays", verif_root)) {
-            let prefix = format!("{}-{}-", prop, tier.name());
+            let prefix = if secondary_profile() { format!("{}-{}-rel-", prop, tier.name()) } else { format!("{}-{}-", prop, tier.name()) };
             for e in rd.flatten() {
+                // the first pass owns every artefact of the property, the second only its own
+                if !secondary_profile() && e.file_name().to_string_lossy().starts_with(&format!("{}-{}-rel-", prop, tier.name())) {
+                    let _ = std::fs::remove_file(e.path());
+                    continue;
+                }
                 if e.file_name().to_string_lossy().starts_with(&prefix) {
                     let _ = std::fs::remove_file(e.path());
                 }
@@ -642,12 +656,13 @@ impl Ctx {
             let n = self.replay_counter.fetch_add(1, Ordering::Relaxed);
             let dir = format!("{}/replays", self.verif_root);
             let _ = std::fs::create_dir_all(&dir);
-            let path = format!("{}/{}-{}-{}.json", dir, self.prop, self.tier.name(), n);
+            let path = format!("{}/{}-{}-{}{}.json", dir, self.prop, self.tier.name(), if secondary_profile() { "rel-" } else { "" }, n);
             let body = json!({
                 "property": self.prop,
                 "signature": f.sig,
                 "detail": f.detail,
                 "case": f.case,
+                "build_profile": if secondary_profile() { "release-defaults" } else { "checked" },
             });
             if std::fs::write(&path, serde_json::to_string_pretty(&body).unwrap()).is_ok() {
                 if e.replays.is_empty() {
@@ -737,14 +752,51 @@ impl Ctx {
         let dir = format!("{}/evidence", self.verif_root);
         let _ = std::fs::create_dir_all(&dir);
         let path = format!("{}/{}.json", dir, self.prop);
+        let ev = if secondary_profile() {
+            // merge into the evidence of the first pass
+            let mut first: Value = match std::fs::read_to_string(&path).ok().and_then(|s| serde_json::from_str(&s).ok()) {
+                Some(v) => v,
+                None => {
+                    eprintln!("MACHINERY: the release-defaults pass found no evidence of the first pass at {}", path);
+                    return 2;
+                }
+            };
+            let summary = json!({
+                "build_profile": "opt-level 3, overflow-checks off, debug-assertions off (the defaults of cargo build --release)",
+                "bounds": "quick",
+                "evaluations": evals,
+                "states": states,
+                "transitions": transitions,
+                "distinct_nontrivial": self.nontrivial.load(Ordering::Relaxed),
+                "distinct_outcomes": outcomes.len(),
+                "outcomes": *outcomes,
+                "exhaustive": exhaustive,
+                "spaces": self.spaces.lock().unwrap().len(),
+                "violation_signatures": vio_summary,
+                "known_findings_seen": listed,
+                "violations": unlisted,
+                "wall_s": (wall * 1000.0).round() / 1000.0,
+            });
+            let w0 = first["wall_s"].as_f64().unwrap_or(0.0);
+            let v0 = first["violations"].as_u64().unwrap_or(0);
+            first["wall_s"] = json!(((w0 + wall) * 1000.0).round() / 1000.0);
+            first["violations"] = json!(v0 + unlisted);
+            if let Some(c) = first["coverage"].as_object_mut() {
+                c.insert("release_defaults_pass".into(), summary);
+            }
+            first
+        } else {
+            ev
+        };
         if let Err(e) = std::fs::write(&path, serde_json::to_string_pretty(&ev).unwrap()) {
             eprintln!("MACHINERY: cannot write evidence {}: {}", path, e);
             return 2;
         }
         println!(
-            "{} {}: cases={} states={} transitions={} nontrivial={} outcomes={} exhaustive={} violations={} known={} wall={:.1}s",
+            "{} {}{}: cases={} states={} transitions={} nontrivial={} outcomes={} exhaustive={} violations={} known={} wall={:.1}s",
             self.prop,
             self.tier.name(),
+            if secondary_profile() { " (release-defaults build)" } else { "" },
             evals,
             states,
             transitions,
